@@ -102,12 +102,13 @@ Definition enc_np (r : option (list N)) : N :=
 Definition b2n (b : bool) : N := if b then 1 else 0.
 
 (* ---------------------------------------------------------------- digests *)
-Definition P61 : N := 2305843009213693951.
+Definition M60 : N := 1152921504606846975.   (* 2^60 - 1; checksums are taken modulo 2^60 *)
 (* (number of non-zero values, position-weighted checksum) *)
 Definition digest (vals : list N) : N * N :=
-  let '(_, c, s) := fold_left (fun '(pos, c, s) v => (pos + 1, (if v =? 0 then c else c + 1), (s + (pos + 1) * (v + 1)) mod P61))
+  let '(_, c, s) := fold_left (fun '(pos, c, s) v => (pos + 1, (if v =? 0 then c else c + 1), N.land (s + (pos + 1) * (v + 1)) M60))
                               vals (0, 0, 0) in (c, s).
-Definition range (lo n : N) : list N := map (fun k => lo + N.of_nat k) (seq 0 (N.to_nat n)).
+Fixpoint range_aux (n : nat) (lo : N) : list N := match n with O => [] | S n' => lo :: range_aux n' (lo + 1) end.
+Definition range (lo n : N) : list N := range_aux (N.to_nat n) lo.
 
 (* single types: the emitted TypeProto (0 = refused) *)
 Definition val_to_onnx (i : N) : N := match to_onnx (nth_type i) with Some p => enc_proto p | None => 0 end.
@@ -134,11 +135,11 @@ Definition vals_pairs (tys : list ty) (a : ty) := map (val_pair a) tys.
 Definition row_pairs (tys : list ty) (a : ty) := digest (vals_pairs tys a).
 
 (* deterministic sampler of pairs of the full domain *)
-Definition P31 : N := 2147483647.
+Definition M32 : N := 4294967295.
 Definition mix (seed k : N) : N :=
-  let x := (seed * 1000003 + k * 7919 + 12345) mod P31 in
-  let y := (x * x + 1013904223) mod P31 in
-  (y * 48271 + k) mod P31.
+  let x := N.land (seed * 1000003 + k * 7919 + 12345) M32 in
+  let y := N.land (N.shiftr (x * x) 16) M32 in
+  N.land (N.shiftr (y * 48271 + k) 3) M32.
 Definition sample_pair (seed k : N) : N * N :=
   let i := mix seed (3 * k) mod NTYPES in
   let h := mix seed (3 * k + 1) in
